@@ -12,10 +12,26 @@ import logging
 import os
 import gffutils
 import argparse
+import tempfile
 from traceback import print_exc
 import gzip
 
 logger = logging.getLogger('IsoQuant')
+
+
+def dump_json_atomically(obj, path):
+    # several IsoQuant runs may share the per-user config files: never let a concurrent reader see a partially
+    # written file -- write aside (same directory) and atomically move into place
+    fd, tmp_path = tempfile.mkstemp(dir=os.path.dirname(os.path.abspath(path)),
+                                    prefix=os.path.basename(path) + ".", suffix=".tmp")
+    try:
+        with os.fdopen(fd, 'w') as f_out:
+            json.dump(obj, f_out)
+        os.replace(tmp_path, path)
+    except BaseException:
+        if os.path.exists(tmp_path):
+            os.remove(tmp_path)
+        raise
 
 
 def db2gtf(db, gtf, _=None):
@@ -366,8 +382,7 @@ def convert_db(gtf_filename, genedb_filename, convert_fn, args):
         'db_mtime': os.path.getmtime(genedb_filename),
         'complete_db': args.complete_genedb
     }
-    with open(args.db_config_path, 'w') as f_out:
-        json.dump(converted_gtfs, f_out)
+    dump_json_atomically(converted_gtfs, args.db_config_path)
     return gtf_filename, genedb_filename
 
 
